@@ -10,6 +10,7 @@ import (
 	"strings"
 	"time"
 
+	"github.com/ARM-software/golang-utils/utils/commonerrors"
 	"github.com/ARM-software/golang-utils/utils/filesystem"
 	"github.com/ARM-software/golang-utils/utils/sharedcache"
 
@@ -75,6 +76,11 @@ func twoKeys(r *vrun.Run) {
 					n++
 					dest := filepath.Join(root, "dest", fmt.Sprintf("d%d", n))
 					if e := c.Fetch(ctx, key, dest); e != nil {
+						if commonerrors.Any(e, commonerrors.ErrTimeout, commonerrors.ErrCancelled, commonerrors.ErrLocked, commonerrors.ErrStaleLock) {
+							// the lock-based cache works in real time here: a machine too busy to grant the lock in time says nothing
+							r.Inconclusive("two-keys scenario: a Fetch ran out of time waiting for the cache lock")
+							return
+						}
 						if v != 0 {
 							r.Violation(vrun.Sig{"oracle": "fetch-for-that-key", "cache": kind, "effect": "fetch-failed", "step": step, "keys": rel},
 								fmt.Sprintf("%s cache, keys %q and %q: %s: Fetch(%q) failed although version %d was stored for it: %v", kind, pair[0], pair[1], step, key, v, e),
